@@ -14,11 +14,14 @@ func init() {
 // stripStringCopy looks through string<->[]byte conversions (string([]byte(s)) copies a string).
 func stripConv(v ssa.Value) ssa.Value {
 	for {
-		cv, ok := v.(*ssa.Convert)
-		if !ok {
+		switch cv := v.(type) {
+		case *ssa.Convert:
+			v = cv.X
+		case *ssa.ChangeType:
+			v = cv.X
+		default:
 			return v
 		}
-		v = cv.X
 	}
 }
 
